@@ -185,6 +185,8 @@ def module_source(program, mi):
                 ref = repr(input_text(program, i))
             if i.get('optional'):
                 ref = f'_ITP({ref}, default={i["default"]!r})'
+            elif i.get('itp'):
+                ref = f'_ITP({ref})'   # a REQUIRED input spelled as InputTaskParameter(<class or name>)
             (par_list if i.get('via_param') else in_list).append(ref)
         plist = []
         for p in t['params']:
